@@ -130,6 +130,31 @@ def validate(prop, trace, scen_path, outcome, spec="LedgerTrace", timeout=3000):
     return matched, total, res
 
 
+def known_duplicate_resurrection(outcome):
+    """Recorded finding C01-duplicate-output-resurrected: the committed scenario is run on the real index and judged by
+    TLC like any other; the only tolerated rejection is C01.domain with exactly the resurrected output as the extra one."""
+    scen = os.path.join(os.path.dirname(WORK), "scenarios-known", "c01-duplicate-spent-in-batch.ndjson")
+    if not os.path.exists(scen):
+        return
+    trace = os.path.join(WORK, "known-c01-dup-%d.ndjson" % os.getpid())
+    ordv(["run", "--scenarios", scen, "--trace", trace, "--events"], timeout=1800)
+    res = run_tlc("LedgerTrace.tla", "LedgerTrace.cfg", env={"TRACE": trace, "PROP": "C01"}, timeout=1800)
+    matched, total, fails, _ = parse_trace_result(res["out"])
+    if matched is None:
+        raise ToolError("TLC produced no verdict for the known-finding scenario")
+    if matched == total:
+        return  # the defect is gone
+    listed = known_keys("C01")
+    text = res["out"].replace("\n", " ")
+    if fails[:1] == ["C01.domain"] and '"missing", {}, "extra", {"cp9x0b12:0"}' in text and "C01-duplicate-output-resurrected" in listed:
+        outcome.known.append("C01-duplicate-output-resurrected: %s" % listed["C01-duplicate-output-resurrected"]["title"])
+    else:
+        with open(scen) as f:
+            sc = json.loads(f.readline())
+        outcome.violation("known-finding scenario rejected differently: %s" % text[text.find('"FAIL"'):][:400],
+                          {"property": "C01", "kind": "ledger", "scenario": sc, "fails": fails})
+
+
 def coverage_of(prop, trace):
     lines = read_ndjson(trace)
     blocks = [x for x in lines if x["e"] == "Block"]
@@ -192,6 +217,8 @@ def run(prop, tier, seed):
     else:
         trace, scen = make_trace(seed, tier)
     matched, total, res = validate(prop, trace, scen, outcome)
+    if prop == "C01":
+        known_duplicate_resurrection(outcome)
     cov = coverage_of(prop, trace)
     cov["traces_validated_against_impl"] = cov["scenarios"]
     cov["events_matched"] = matched
